@@ -142,7 +142,7 @@ def job_polynomial(job):
         if len(out['samples']) < 4 and rng.random() < 0.03:
             out['samples'].append({'expr': src, 'numer_terms': len(got[0].c), 'denom_terms': len(got[1].c)})
     # compare(): a total order on monomials consistent with equality of variable lists
-    monos = [[1] + sorted(rng.choices(names, k=rng.randint(0, 3))) for _ in range(40)]
+    monos = [[rng.choice([1, -2, 3, 0.5])] + sorted(rng.choices(names, k=rng.randint(0, 3))) for _ in range(40)]
     for a in monos:
         for b in monos:
             out['evaluations'] += 1
